@@ -228,7 +228,9 @@ class Body:
         self.cfg = cfg
         self.defp = d['def']
         self.name = strip_generics(d['def'])
-        self.kind = d['kind']
+        # a promoted constant of a body is not that body: rules that select bodies by kind never mean it
+        self.owner_kind = d['kind']
+        self.kind = 'promoted' if d.get('promoted') else d['kind']
         self.parent = d['parent']
         self.impl = d['impl']
         self.derived = d['derived']
